@@ -91,7 +91,7 @@ def gen(rng: Rng, tier, i):
             [("o", 5), ("w", 2)])
         steps.append({"op": "save", "v": v, "mode": mode,
                       "level": rng.pick([None, 0, 1, 4, 4, 9]),
-                      "path_kind": rng.pick(["str", "Path"])})
+                      "path_kind": rng.pick(["str", "Path", "str", "Path", "rel", "relPath"])})
     focus = nver - 1
     if nver == 3 and rng.chance(0.8):
         steps[1]["fault_frac"] = {"kind": rng.pick(["store", "store", "zip_write", "ser"]),
